@@ -4,7 +4,7 @@ R-KEEP-KEY, R-HASH-SOURCE, R-PAR-LINEAR, R-SPLIT-ABUT, R-PAR-DELEGATION,
 R-SERDE-CAUTIOUS, R-SERDE-INSERT."""
 from core import callee_path, last_field, rv_operands
 from cond import sources, branch_sources, controlling_sources
-from rules.base import Result, where, line_of, param_of_type
+from rules.base import Result, where, line_of, param_of_type, param_named
 from rules.accounting import deep_root, operand_deep_root
 from rules.iters import _is_exhaustion_branch
 
@@ -375,6 +375,30 @@ def r_clone_shape(F, V):
         cp = callee_path(t) or ""
         if ("copy" in cp and "ptr" in cp) and not any(s == "control::tag::Tag" for s in t["f"].get("substs", [])):
             R.violation("raw::RawTable::clone_from_impl|memcpy", b, "clone_from_impl copies memory that is not control bytes (%s): elements must be cloned, not copied" % cp, line=line_of(b, bb=i))
+    # the clone's control bytes end up equal to the source's: copied wholesale, or - if the control array is rebuilt slot by slot -
+    # with the source's tombstones reproduced too (a DELETED byte that becomes EMPTY in the clone cuts the probe chains that ran
+    # over it: elements stored behind it are no longer found in the clone)
+    key_c = "raw::RawTable::clone_from_impl|ctrl-bytes"
+    bulk = [i for i, t in b.calls() if "copy" in (callee_path(t) or "") and any(s_ == "control::tag::Tag" or s_ == "u8" for s_ in t["f"].get("substs", []))]
+    fills = [i for i, t in b.calls() if t["f"].get("method") == "fill_empty" or (callee_path(t) or "").endswith("fill_empty")]
+    if bulk:
+        R.inst(key_c, "the control bytes of the source are copied wholesale", "ok", True, where(b, bb=bulk[0]))
+    elif fills:
+        tomb = False
+        for i, t in b.calls():
+            if (callee_path(t) or "").endswith("RawTableInner::set_ctrl") and len(t["args"]) > 2:
+                tg = t["args"][2]
+                if tg["k"] == "const" and (tg.get("def") or "").endswith("Tag::DELETED") or any(o[0] == "const" and (o[1].get("def") or "").endswith("Tag::DELETED") for o in b.origins(tg)):
+                    # in a loop over all buckets, on the arm where the source's byte is DELETED
+                    cs = controlling_sources(b, i)
+                    if any(S_.has_call("RawTableInner::ctrl") for (_, _, S_) in cs):
+                        tomb = True
+        if tomb:
+            R.inst(key_c, "the control array is rebuilt: reset to EMPTY, the source's DELETED markers reproduced, FULL tags set as the clones are written", "ok", True, where(b, bb=fills[0]))
+        else:
+            R.violation(key_c, b, "clone_from_impl rebuilds the control array from EMPTY and sets only the tags of the cloned elements: the source's DELETED markers are lost, so in the clone a probe sequence that has to "
+                        "pass such a slot stops early - elements stored behind a tombstone are present in the clone (iter, len) but are not found by lookups", line=line_of(b, bb=fills[0]))
+            R.inst(key_c, "tombstones not reproduced in the clone", "violation", True, where(b, bb=fills[0]))
     # clone_from: clone_from_spec runs only when both tables have the same number of buckets
     cf = F.bodies.get("raw::<RawTable as Clone>::clone_from")
     if cf is None:
@@ -757,7 +781,7 @@ def r_split_abut(F, V):
         j, t = news[0]
         # the ctrl parameter of RawIterRange::new is identified by its type (`*const u8`), not by position
         nb = F.bodies.get("raw::RawIterRange::new")
-        pc = param_of_type(nb, "*const u8") if nb is not None else 1
+        pc = (param_of_type(nb, "*const u8") or param_named(nb, "ctrl", "*const u8")) if nb is not None else 1
         if pc is None or pc > len(t["args"]):
             R.undec("raw::RawIterRange::new: no unique `*const u8` parameter")
             return R
@@ -877,6 +901,29 @@ def r_par_delegation(F, V):
 
 # --------------------------------------------------------------------- serde
 
+def _hint_reaches(b, operand, depth=0, seen=None):
+    """does a size_hint() result reach this operand without passing through size_hint::cautious? (follows the arguments of every
+    other call, e.g. `Vec::len(&buffer)` -> the buffer's construction)"""
+    if seen is None:
+        seen = set()
+    if depth > 5:
+        return False
+    S = sources(b, operand, transparent=())
+    for c, lst in S.calls.items():
+        if c.endswith("size_hint::cautious"):
+            continue
+        if "::size_hint" in c or c.endswith("size_hint"):
+            return True
+        for bb, t in lst:
+            if (bb, c) in seen:
+                continue
+            seen.add((bb, c))
+            for a in t["args"]:
+                if _hint_reaches(b, a, depth + 1, seen):
+                    return True
+    return False
+
+
 def r_serde(F, V):
     R = Result("R-SERDE", F.cfg)
     visits = [p for p in F.bodies if p.startswith("external_trait_impls::serde::") and (p.endswith("::visit_map") or p.endswith("::visit_seq"))]
@@ -901,12 +948,12 @@ def r_serde(F, V):
                 if capq is None:
                     continue
                 S = sources(b, t["args"][capq], transparent=())
-                direct_hint = any(c.endswith("size_hint") and not c.endswith("cautious") for c in S.calls if "::size_hint" in c and "cautious" not in c)
+                direct_hint = _hint_reaches(b, t["args"][capq])
                 via = any(c.endswith("size_hint::cautious") for c in S.calls)
                 if via and not direct_hint:
                     R.inst(key, "pre-reservation = size_hint::cautious(access.size_hint())", "ok", True, where(b, bb=i))
-                elif not via and not direct_hint and not S.calls:
-                    R.inst(key, "capacity does not depend on the claimed length", "ok", False, where(b, bb=i))
+                elif not direct_hint:
+                    R.inst(key, "capacity does not depend on the claimed length other than through size_hint::cautious (e.g. the number of elements actually read)", "ok", False, where(b, bb=i))
                 else:
                     R.violation(key, b, "the capacity reserved before reading any element depends on the input's claimed size hint without passing through size_hint::cautious (sources: %s): a lying hint forces a huge allocation or a capacity-overflow panic" % sorted(S.calls), line=line_of(b, bb=i))
                     R.inst(key, "uncautious pre-reservation", "violation", True, where(b, bb=i))
@@ -915,7 +962,56 @@ def r_serde(F, V):
         key = "%s|insert" % p.split("::", 2)[2]
         good = [x for _, x in ins if x in ("map::HashMap::insert", "set::HashSet::insert")]
         badi = [x for _, x in ins if x not in ("map::HashMap::insert", "set::HashSet::insert")]
-        if good and not badi:
+        # `values.extend(iterator)` is the same insertion (Extend inserts element by element, a repeated key keeps the last value) plus a
+        # reservation of the iterator's *lower* size bound: the iterator handed over must not report the input's claimed length as
+        # its lower bound (a crate-local adaptor's size_hint must start with 0 or go through cautious)
+        for i, t in b.calls():
+            f_ = t["f"]
+            if f_["k"] == "fn" and f_.get("method") == "extend" and (f_.get("trait") or "").endswith("Extend") and len(t["args"]) >= 2:
+                rty = b.locals[b.root_of_place(t["args"][0]["p"])[0]]["ty"]["s"] if t["args"][0]["k"] in ("copy", "move") else ""
+                if not ("HashSet<" in rty or "HashMap<" in rty):
+                    continue
+                good.append("Extend::extend")
+                ity = b.locals[t["args"][1]["p"]["l"]]["ty"] if t["args"][1]["k"] in ("copy", "move") else {}
+                while ity.get("k") == "ref":
+                    ity = ity["inner"]
+                X = ity.get("path") if ity.get("k") == "adt" else None
+                shb = None
+                if X:
+                    for im in F.impls:
+                        if im.get("trait") == "core::iter::traits::iterator::Iterator" and im["self_ty"].get("k") == "adt" and im["self_ty"]["path"] == X:
+                            for it in im["items"]:
+                                if it["name"] == "size_hint":
+                                    shb = F.bodies.get(it["path"])
+                if shb is not None:
+                    keyh = "%s|extend-lower-bound" % p.split("::", 2)[2]
+                    lows = []
+                    for j2, k2, s2 in shb.stmts():
+                        if s2["k"] == "assign" and s2["rv"]["k"] == "aggregate" and s2["rv"].get("kind") == "tuple" and len(s2["rv"]["ops"]) == 2 and not s2["p"].get("proj") and s2["p"]["l"] == 0:
+                            lows.append(s2["rv"]["ops"][0])
+                    badl = []
+                    for o in lows:
+                        if o["k"] == "const" and o.get("val") == 0:
+                            continue
+                        So = sources(shb, o, transparent=())
+                        if any(c.endswith("size_hint::cautious") for c in So.calls) and not any("::size_hint" in c and "cautious" not in c for c in So.calls):
+                            continue
+                        badl.append(o)
+                    if badl or not lows:
+                        R.violation(keyh, shb, "the iterator handed to extend() reports a lower size bound that depends on the input's claimed length (not 0, not through size_hint::cautious): extend reserves that many slots before reading any element - a lying hint forces a huge allocation or a capacity-overflow panic")
+                        R.inst(keyh, "uncautious lower bound of the extend iterator", "violation", True, where(shb))
+                    else:
+                        R.inst(keyh, "the iterator handed to extend() promises no elements in advance (lower bound 0 / cautious)", "ok", True, where(shb))
+        rev = []
+        for i, t in b.calls():
+            if (callee_path(t) or "") in ("map::HashMap::insert", "set::HashSet::insert"):
+                for a in t["args"][1:]:
+                    Sx = sources(b, a)
+                    rev += [c for c in Sx.calls if c.endswith("Vec::pop") or c.endswith("::next_back") or c.endswith("::rev") or c.endswith("pop_back")]
+        if good and not badi and rev:
+            R.violation(key, b, "the visitor inserts buffered elements in reverse input order (taken with %s): for a repeated key the FIRST value of the input wins instead of the last" % sorted(set(rev))[0])
+            R.inst(key, "elements inserted in reverse input order", "violation", True, where(b))
+        elif good and not badi:
             R.inst(key, "elements are added with %s (repeated keys keep the last value)" % good[0], "ok", True, where(b))
         else:
             R.violation(key, b, "the visitor adds elements with %s instead of HashMap::insert / HashSet::insert: repeated keys would be duplicated or keep the first value" % (sorted(set(badi)) or "nothing"))
